@@ -178,6 +178,23 @@ def cases(draw):
             placements.append({"site": list(upper), "kind": "disable", "value": None, "formula": ("name", b1)})
             placements.append({"site": list(ms), "kind": "disable", "value": None, "formula": ("name", b2)})
             disabled_chain.add(("method",) + tuple(ms[1:5]))
+    # a disable inherited from an enclosing item (type, impl) plus one on the method itself, under conditions that may hold
+    # together: the method is then simply disabled (both-true must not be an error)
+    if msites and draw(st.integers(0, 2)) == 0:
+        ms = draw(st.sampled_from(msites))
+        chain = [("module", ms[1]), ("type", ms[1], ms[2]), ("impl",) + tuple(ms[1:4]), ("method",) + tuple(ms[1:5])]
+        tname = prog["modules"][ms[1]]["items"][ms[2]]["name"]
+        if not any(c in disabled_chain for c in chain):
+            uppers = [("impl",) + tuple(ms[1:4])]
+            if tname in extra_names:
+                uppers.append(("type", ms[1], ms[2]))
+            upper = draw(st.sampled_from(uppers))
+            f1 = draw(formulas())
+            f2 = draw(st.one_of(st.just(f1), formulas(), st.just(("star",))))
+            placements.append({"site": list(upper), "kind": "disable", "value": None, "formula": f1})
+            placements.append({"site": list(ms), "kind": "disable", "value": None, "formula": f2})
+            disabled_chain.add(("method",) + tuple(ms[1:5]))
+            disabled_chain.add(upper)
     return prog, placements
 
 
@@ -276,6 +293,20 @@ def check_backend(art, work, prog, placements, b, table):
         return "fail", "%s: outcome %s with the conditional attributes but %s with their resolved form (%s)\n%s\n--- lib.rs ---\n%s" % (
             b, r1.classify(), r2.classify(), truth, (r1.stderr or r2.stderr)[-400:], s1)
     if not r1.ok:
+        # disabling methods only removes things: the same program without its method- and impl-level disables has a superset
+        # of the methods, so if that one is accepted this one must be (an inherited disable plus an own one is "disabled")
+        inner = [pl for pl in placements if pl["kind"] == "disable" and pl["site"][0] in ("impl", "method")]
+        if b == "demo_gen":
+            # (not monotone there: disabling the impl that holds a type's demo default constructor makes its users unrenderable)
+            inner = [pl for pl in inner if not (pl["site"][0] == "impl" and any(m["name"] == "dv_demo_new" for m in target_of(prog, pl["site"])["methods"]))]
+        if inner:
+            rest = [pl for pl in placements if pl not in inner]
+            e4 = os.path.join(work, "outer.rs")
+            open(e4, "w").write(ir.render_program(instantiate(prog, rest, "cfg")))
+            r4 = tool.run_backend(art, b, e4, os.path.join(work, "o4"), config=CONFIGS[b][0])
+            if r4.ok:
+                return "fail", "%s: rejected with its method/impl-level disables (%s) but accepted without them: disabling a method must not turn an accepted bridge into an error\n%s\n--- lib.rs ---\n%s" % (
+                    b, truth, (r1.stderr or "")[-400:], s1)
         return "both-rejected", None
     f1, f2 = r1.files(), r2.files()
     if b == "demo_gen":
